@@ -52,3 +52,32 @@ Proof. intro n. split.
     repeat (name_case H; [vm_compute; tauto|]). discriminate.
   - intro H. vm_compute in H. repeat (destruct H as [H|H]; [subst n; reflexivity|]). destruct H. Qed.
 End D.
+
+(* ---- option tables: options.go's specOpt* maps (Gen/Facts.opt_specs) against the model's ---- *)
+Definition model_spec (g : string) : option spec :=
+  if String.eqb g "specOptBd" then Some specOptBd else if String.eqb g "specOptBf" then Some specOptBf
+  else if String.eqb g "specOptBl" then Some specOptBl else if String.eqb g "specOptBm" then Some specOptBm
+  else if String.eqb g "specOptD" || String.eqb g "specOptEl" || String.eqb g "specOptIt" || String.eqb g "specOptP" || String.eqb g "specOptTa" then Some specOptNone
+  else if String.eqb g "specOptDef" || String.eqb g "specOptDefVar" then Some specOptDef
+  else if String.eqb g "specOptEd" then Some specOptEd else if String.eqb g "specOptEm" then Some specOptEm
+  else if String.eqb g "specOptEf" then Some specOptEf else if String.eqb g "specOptFt" then Some specOptFt
+  else if String.eqb g "specOptIf" then Some specOptIf else if String.eqb g "specOptIncludeFile" then Some specOptIncludeFile
+  else if String.eqb g "specOptIm" then Some specOptIm else if String.eqb g "specOptLk" then Some specOptLk
+  else if String.eqb g "specOptRun" then Some specOptRun else if String.eqb g "specOptSm" then Some specOptSm
+  else if String.eqb g "specOptSx" then Some specOptSx else if String.eqb g "specOptTc" then Some specOptTc
+  else if String.eqb g "specOptXdtag" then Some specOptXdtag else if String.eqb g "specOptXftag" then Some specOptXftag
+  else if String.eqb g "specOptXmtag" then Some specOptXmtag else if String.eqb g "specOptXset" then Some specOptXset
+  else if String.eqb g "specOptHeader" then Some specOptHeader
+  else None.
+(* same finite map: every Go entry is in the model's table with the same kind, and the tables have the same size without duplicates *)
+Definition spec_agrees (go : list (string * bool)) (m : spec) : bool :=
+  forallb (fun p => match assoc (runes (fst p)) m with Some k => Bool.eqb k (snd p) | None => false end) go &&
+  Nat.eqb (List.length go) (List.length m) &&
+  forallb (fun p => Nat.eqb (List.length (filter (fun q => str_eqb (fst q) (fst p)) m)) 1) m.
+Theorem option_tables_agree :
+  forallb (fun p => match model_spec (fst p) with Some m => spec_agrees (snd p) m | None => false end) Facts.opt_specs = true.
+Proof. vm_compute. reflexivity. Qed.
+(* and each handler hands ParseOptions a table that exists (the one user-macro call site computes its table from the definition) *)
+Theorem parse_options_uses_known :
+  forallb (fun p => String.eqb (snd p) "<computed>" || match model_spec (snd p) with Some _ => true | None => false end) Facts.parse_options_uses = true.
+Proof. vm_compute. reflexivity. Qed.
